@@ -59,6 +59,7 @@ type Sched struct {
 	Log      *Log
 
 	start      time.Time
+	hmu        sync.Mutex // protects h and seq: drivers may schedule events too
 	h          evHeap
 	seq        uint64
 	wake       chan struct{}
@@ -83,6 +84,10 @@ type YieldSpec struct {
 	Hold time.Duration `json:"hold,omitempty"`
 	// Scale multiplies the default distribution (0 = 1).
 	Scale int `json:"scale,omitempty"`
+	// Hot marks a site hit once per packet: second-long holds ("stalled
+	// thread") are then drawn with probability 0.4% instead of 7% so that most
+	// runs make progress between stalls.
+	Hot bool `json:"hot,omitempty"`
 }
 
 // NewSched creates the scheduler. Call inside the bubble.
@@ -120,9 +125,12 @@ func (s *Sched) AddInvariant(f func() error) { s.invariants = append(s.invariant
 
 // At schedules f at absolute simulated time t (clamped to now).
 func (s *Sched) At(t time.Time, kind string, f func()) {
+	s.hmu.Lock()
 	s.seq++
 	heap.Push(&s.h, &ev{at: t, seq: s.seq, kind: kind, run: f})
 	Pending.Store(int64(len(s.h)))
+	s.hmu.Unlock()
+	s.Ping()
 }
 
 // After schedules f after d.
@@ -134,7 +142,23 @@ func (s *Sched) After(d time.Duration, kind string, f func()) {
 }
 
 // PendingEvents returns the number of scheduled events.
-func (s *Sched) PendingEvents() int { return len(s.h) }
+func (s *Sched) PendingEvents() int {
+	s.hmu.Lock()
+	defer s.hmu.Unlock()
+	return len(s.h)
+}
+
+// Busy reports whether any decision is still pending: a scheduled event
+// (delivery, resume of a parked goroutine, ...) or a freshly parked yield.
+func (s *Sched) Busy() bool {
+	s.hmu.Lock()
+	n := len(s.h)
+	s.hmu.Unlock()
+	s.ymu.Lock()
+	n += len(s.yNew)
+	s.ymu.Unlock()
+	return n > 0
+}
 
 // EnableYield enables a yield site for this run.
 func (s *Sched) EnableYield(site string, spec YieldSpec) { s.yEnabled[site] = spec }
@@ -180,7 +204,7 @@ func (s *Sched) holdFor(site string, k int) time.Duration {
 		d = 0
 	case u < 0.70:
 		d = time.Duration(1+Mix(h)%50000) * time.Nanosecond // up to 50us
-	case u < 0.93:
+	case u < 0.93 || (spec.Hot && u < 0.996):
 		d = time.Duration(1+Mix(h)%20000) * time.Microsecond // up to 20ms
 	default:
 		d = time.Duration(1+Mix(h)%3000) * time.Millisecond // stalled thread, up to 3s
@@ -244,9 +268,16 @@ func (s *Sched) Run(done func() bool) error {
 				return err
 			}
 		}
-		Pending.Store(int64(len(s.h)))
 		now := time.Now()
-		if len(s.h) == 0 {
+		s.hmu.Lock()
+		n := len(s.h)
+		Pending.Store(int64(n))
+		var e *ev
+		if n > 0 {
+			e = s.h[0]
+		}
+		s.hmu.Unlock()
+		if e == nil {
 			if done() {
 				return nil
 			}
@@ -264,7 +295,6 @@ func (s *Sched) Run(done func() bool) error {
 		if s.Steps >= s.MaxSteps || !now.Before(deadline) {
 			return ErrBudget
 		}
-		e := s.h[0]
 		if e.at.After(now) {
 			t := time.NewTimer(e.at.Sub(now))
 			select {
@@ -274,7 +304,9 @@ func (s *Sched) Run(done func() bool) error {
 			}
 			continue
 		}
-		heap.Pop(&s.h)
+		s.hmu.Lock()
+		e = heap.Pop(&s.h).(*ev)
+		s.hmu.Unlock()
 		s.Steps++
 		e.run()
 	}
@@ -282,8 +314,14 @@ func (s *Sched) Run(done func() bool) error {
 
 // Drain applies all remaining events immediately (teardown helper).
 func (s *Sched) Drain() {
-	for len(s.h) > 0 {
+	for {
+		s.hmu.Lock()
+		if len(s.h) == 0 {
+			s.hmu.Unlock()
+			break
+		}
 		e := heap.Pop(&s.h).(*ev)
+		s.hmu.Unlock()
 		e.run()
 	}
 	Pending.Store(0)
